@@ -30,7 +30,8 @@ META = {
         " Round 8: deduce_layout's section search finds every spelling (incl. '§'); reduce_whitespace rewrites whitespace only."
         ' Round 9: deduce_layout searches the whole text; no de-duplication / re-ordering idiom on the parse path.'
         " Round 10: sub_scrubber rewrites each Twp/Rge where it stands ('5N-9W ... 15N-9W')."
-        " Round 11: cleanup_desc leaves a final full stop alone; the continuation-word test in front of a section sees whole words only; _parse_meaningful's layout tests are judged by the class of layouts they use when rewritten."),
+        " Round 11: cleanup_desc leaves a final full stop alone; the continuation-word test in front of a section sees whole words only; _parse_meaningful's layout tests are judged by the class of layouts they use when rewritten."
+        " Round 12: section numbers are added as two-digit strings; no length pre-test rejects a string the TRS unpacker matches ('7s9e')."),
     'families': ['TBL', 'RX-LANG', 'ORDER'],
 }
 
@@ -76,6 +77,10 @@ def check(ctx):
     from .c04 import cleanup_keeps_final_stop, continuation_word_tests_are_whole_words
     ctx.attempt(cleanup_keeps_final_stop, rule='TBL')
     ctx.attempt(continuation_word_tests_are_whole_words)
+    from .c05 import sections_are_two_digits
+    ctx.attempt(sections_are_two_digits)
+    from .c12 import length_pretests      # pretty_desc builds TRS(twprge) from a bare Twp/Rge ('7s9e')
+    ctx.attempt(length_pretests)
 
 
 def _pretty(ctx, tw, ms):
